@@ -38,7 +38,7 @@ func (o OvsMap) MarshalJSON() ([]byte, error) {
 func (o *OvsMap) UnmarshalJSON(b []byte) (err error) {
 	var oMap []interface{}
 	o.GoMap = make(map[interface{}]interface{})
-	if err := json.Unmarshal(b, &oMap); err == nil && len(oMap) > 1 {
+	if err := unmarshalExact(b, &oMap); err == nil && len(oMap) > 1 {
 		typeErr := &json.UnmarshalTypeError{Value: reflect.ValueOf(oMap).String(), Type: reflect.TypeOf(*o)}
 		innerSlice, ok := oMap[1].([]interface{})
 		if !ok {
